@@ -82,7 +82,7 @@ def run(ctx: core.Ctx):
                     # the extreme targets are exact in every float format: also pass them as float32 /
                     # float16 arrays and as a list (the rescaling must not lose the end of the scale)
                     form = [None, lambda r: r.astype(np.float32), lambda r: r.astype(np.float16), list][(j + k) % 4]
-                    sd.threshold_event(ev, s, o, m, [], g, extra_targets=EXTREME, form=form)
+                    sd.threshold_event(ev, s, o, m, [], g, extra_targets=EXTREME, form=form, with_inf=(j + k) % 3 == 0)
         events += evs
         ctx.nontrivial.add(json.dumps(o, sort_keys=True))
     allcases = cases + wide
